@@ -658,11 +658,11 @@ inline void random_search(const SubCheck& sc, int cases) {
 // "Terminates" is part of several properties, and a case that never returns would otherwise only show up as a shard
 // that ran out of budget. The watchdog counts CPU time (ITIMER_PROF), not wall-clock time, so machine load cannot
 // trigger it: when one journal entry (one case, or one block of a hot loop) has consumed more than the limit
-// (default 60 s of CPU, VERIF_CASE_CPU_LIMIT overrides) the process reports VERIF-ABORT: case-cpu-limit and exits;
+// (default 120 s of CPU, VERIF_CASE_CPU_LIMIT overrides) the process reports VERIF-ABORT: case-cpu-limit and exits;
 // the driver attributes the journalled case like any other crash.
 inline volatile uint64_t g_wd_last_seq = 0;
 inline volatile int g_wd_ticks = 0;
-inline int g_wd_limit_ticks = 12;
+inline int g_wd_limit_ticks = 24;
 inline void watchdog_tick(int) {
   uint64_t seq = ctx().journal_seq;
   if (seq != g_wd_last_seq) {
@@ -678,7 +678,7 @@ inline void watchdog_tick(int) {
   }
 }
 inline void start_watchdog() {
-  int limit_s = 60;
+  int limit_s = 120;
   if (const char* e = getenv("VERIF_CASE_CPU_LIMIT")) limit_s = atoi(e);
   if (limit_s <= 0) return;
   g_wd_limit_ticks = std::max(1, limit_s / 5);
